@@ -19,9 +19,10 @@ import (
 // C04: outbound byte stream is whole messages; WriteUpdate contract.
 
 type c04Params struct {
-	mode  string // onest | handler | free1 | free2 | free3
-	event string // none | fin | notif-rx | handler-notif | close | rst (an UPDATE, then RST) | hdr-fault (a corrupted marker)
-	hold  int
+	mode    string // onest | handler | free1 | free2 | free3
+	tailCut bool   // judge only: a write blocked behind a full window when the session ended may leave a fragment at the very end
+	event   string // none | fin | notif-rx | handler-notif | close | rst (an UPDATE, then RST) | hdr-fault (a corrupted marker)
+	hold    int
 	// join: OnClose waits until the free writer goroutines of the session have returned from the
 	// WriteUpdate call they are in (a plugin that joins its announcer before it lets go of a session)
 	join bool
@@ -228,7 +229,7 @@ func c04Judge(p c04Params, w *world.World, e *vrt.Exec, o *c04Obs) (string, stri
 		if err != nil {
 			return "malformed-output", fmt.Sprintf("%s: bytes written by corebgp are not a sequence of well-formed messages: %v", c, err)
 		}
-		if len(rest) > 0 && !cutByPeer(c, rest) {
+		if len(rest) > 0 && !cutByPeer(c, rest) && !p.tailCut {
 			return "partial-message", fmt.Sprintf("%s: the byte stream written by corebgp ends inside a message (%d stray bytes)", c, len(rest))
 		}
 		for i, m := range ms {
@@ -415,12 +416,125 @@ func c04StallRun(ch vrt.Chooser, trace bool) (*world.World, *vrt.Exec, *c04Obs) 
 	return w, e, o
 }
 
+// c04StallEventScn: back-pressure plus an end of session that is the peer's doing. After the handshake the
+// remote stops reading (window 17000 octets) while two plugin goroutines write 4077-octet UPDATEs until they
+// block inside WriteUpdate; 3 s in, the remote sends a NOTIFICATION / closes / resets (corebgp has nothing to
+// write in answer, so D16 does not apply). The session must end all the same: OnClose within a second, the
+// blocked callers released with an error, the connection closed, and Close returns. Run by C04 (WriteUpdate
+// contract at teardown), C05 (no wedge) and C09 (reaction to a NOTIFICATION / end of stream in Established).
+func c04StallEventScn(prop, event string, bound int) *Scn {
+	name := "stalled-writer/" + event
+	return &Scn{Name: name, Bound: bound, Run: func(ch vrt.Chooser, trace bool) *ScnResult {
+		var w *world.World
+		o := &c04Obs{}
+		closedInTime, released := false, false
+		nWriters, nDone := 2, 0
+		e := vrt.Run(vrt.Config{Horizon: int64(40 * time.Second), Race: true, Trace: trace, Chooser: ch, MaxSteps: 400000}, func() {
+			w = world.New(libIP)
+			w.NW.Window = 17000
+			w.NewServer(libIP)
+			pl := &world.Plugin{W: w, Peer: "P1", Marker: true, NoYield: ch == nil}
+			pl.OnEst = func(pp *world.Plugin, s int, wr corebgp.UpdateMessageWriter) {
+				if s != 1 {
+					return
+				}
+				for i := 0; i < nWriters; i++ {
+					i := i
+					vrt.GoWorld(fmt.Sprintf("writer%d", i), func() {
+						vrt.Sleep(500 * time.Millisecond)
+						for n := 0; n < 12; n++ {
+							b := bytes.Repeat([]byte{byte(0x41 + i)}, 4077)
+							b[0], b[1], b[2] = 'S', byte('0'+i), byte(n)
+							c := &c04Call{g: vrt.Cur().Self().Name(), session: s, body: b}
+							o.calls = append(o.calls, c)
+							c.startSeq = w.Append(world.Event{Kind: "write", Phase: "call", Peer: "P1", Session: s, Conn: -1})
+							c.err = wr.WriteUpdate(b)
+							c.done = true
+							c.endSeq = w.Append(world.Event{Kind: "write", Phase: "return", Peer: "P1", Session: s, Conn: -1, Err: fmt.Sprint(c.err)})
+							if c.err != nil {
+								break
+							}
+						}
+						nDone++
+						w.Note("writer", "done")
+					})
+				}
+			}
+			w.NW.OnDial(remAddr, func(att int, from *net.TCPAddr) vnet.DialOutcome {
+				if att > 0 {
+					return vnet.DialOutcome{Kind: vnet.DialRefuse}
+				}
+				return vnet.DialOutcome{Kind: vnet.DialAccept, Serve: func(c *vnet.Conn) {
+					r := w.NewRemote(c, "P1")
+					defer r.Finish()
+					if !reach(r, stEstablished, 65002, 90) {
+						return
+					}
+					vrt.Sleep(3 * time.Second) // not reading: the writers fill the window and block
+					switch event {
+					case "notif-rx":
+						r.C.Write(wire.Notification(6, 2, nil))
+					case "fin":
+						r.C.Close()
+						return
+					case "rst":
+						r.C.Reset()
+						return
+					}
+					w.WaitFlag("judged")
+				}}
+			})
+			if err := w.Server.AddPeer(peerConfig(remIP, 65001, 65002), pl, corebgp.WithHoldTime(90), corebgp.WithDialerControl(w.DialControl("P1"))); err != nil {
+				panic("harness: " + err.Error())
+			}
+			w.Serve(libAddr)
+			vrt.Sleep(4 * time.Second) // one second after the event
+			closedInTime = w.Count("OnClose", "exit", "P1") >= 1
+			released = nDone == nWriters
+			for _, c := range w.NW.Conns {
+				if c.Lib && c.ID == 0 && !c.IsClosed() {
+					closedInTime = false
+				}
+			}
+			w.SetFlag("judged")
+			w.Close()
+			w.WaitServeDone()
+		})
+		return finishRun(prop, "stalled-writer", w, e, trace, true, func() (string, string) {
+			if w.Count("OnEstablished", "exit", "P1") == 0 {
+				return "", "" // the session never came up on this schedule
+			}
+			if !closedInTime {
+				return "teardown-incomplete", fmt.Sprintf("the peer ended the session (%s) while plugin goroutines were blocked in WriteUpdate behind a full window: one second later the connection is not closed or OnClose has not returned", event)
+			}
+			if !released {
+				return "writer-not-released", fmt.Sprintf("the peer ended the session (%s): one second later a WriteUpdate call that was blocked behind the full window has still not returned", event)
+			}
+			return c04Judge(c04Params{mode: "free2", event: "none", hold: 90, tailCut: true}, w, e, o)
+		}, nil)
+	}}
+}
+
+var c04StallEvents = []string{"notif-rx", "fin", "rst"}
+
+func c04StallEventLookup(prop, name string) *Scn {
+	for _, ev := range c04StallEvents {
+		if name == "stalled-writer/"+ev {
+			return c04StallEventScn(prop, ev, 2)
+		}
+	}
+	return nil
+}
+
 func c04Scenarios(th bool) []*Scn {
 	var out []*Scn
 	out = append(out, &Scn{Name: "stalled-reader/hold9", Bound: 1, Run: func(ch vrt.Chooser, trace bool) *ScnResult {
 		w, e, o := c04StallRun(ch, trace)
 		return finishRun("C04", "stalled-reader", w, e, trace, true, func() (string, string) { return c04Judge(c04Params{mode: "free2", event: "none", hold: 9}, w, e, o) }, nil)
 	}})
+	for _, ev := range c04StallEvents {
+		out = append(out, c04StallEventScn("C04", ev, 1))
+	}
 	tp := 2
 	if th {
 		tp = 3
